@@ -57,6 +57,8 @@ class World:
         self.A = coef(self.dom, (dim, dim), count=304)
         self.B = coef(self.dom, (dim, dim), count=305)
         self.T = coef(self.dom, (dim, dim, dim), count=306)
+        self.q = coef(self.dom, (3,), count=307)
+        self.M = coef(self.dom, (dim, 3), count=308)
         self.I = [Index(count=9100 + k) for k in range(3)]
         self.fresh = 0
 
@@ -114,6 +116,18 @@ def seeded(W):
     S["zero/free-index-product"] = isum(isum(Zij + P(idx(A, i, j), idx(B, i, j)), j), i)
     S["zero/in-ct"] = isum(P(idx(ct(Zi + idx(v, i), i), j), idx(w, j)), j)
     S["zero/conditional-branch"] = isum(P(conditional(lt(f, g), Zi, idx(v, i)), idx(w, i)), i)
+    # free indices of different dimensions (2 and 3), in both count orders
+    q, M = W.q, W.M
+    for tag, (a, b) in (("ij", (i, j)), ("ji", (j, i)), ("ik", (i, k)), ("ki", (k, i))):
+        cs = sorted([(a.count(), W.d), (b.count(), 3)])
+        Zab = Zero((), tuple(c for c, _ in cs), tuple(d for _, d in cs))
+        S[f"mixdim/zero-cond-true/{tag}"] = isum(isum(
+            P(conditional(lt(f, g), Zab, P(idx(v, a), idx(q, b))), idx(M, a, b)), b), a)
+        S[f"mixdim/zero-cond-false/{tag}"] = isum(isum(
+            P(conditional(lt(f, g), P(idx(v, a), idx(q, b)), Zab), idx(M, a, b)), b), a)
+        S[f"mixdim/zero-sum/{tag}"] = isum(isum(P(Zab + idx(M, a, b), P(idx(q, b), idx(v, a))), a), b)
+        S[f"mixdim/ct-of-cond/{tag}"] = isum(isum(P(idx(ct(conditional(lt(f, g), Zab, idx(M, a, b)), b, a), b, a),
+                                                    idx(M, a, b)), b), a)
     # plain language-level constructions (fresh indices made by the public API)
     S["api/dot-chain"] = ufl.dot(ufl.dot(A, B), v)[0]
     S["api/trace-of-product"] = ufl.tr(A * B)
